@@ -1,8 +1,11 @@
 package rules
 
 import (
+	"go/types"
+
 	"fmt"
 	"sort"
+	"verif/checker/internal/inl"
 
 	"golang.org/x/tools/go/ssa"
 )
@@ -30,9 +33,13 @@ func (c *Ctx) whoMay(sinkName string, sink Sel, allowed []string, minSites int) 
 	n := 0
 	for _, fn := range c.P.Funcs {
 		for _, in := range find(fn, sink) {
-			o := c.nm(outermost(fn))
-			holders[o] = append(holders[o], c.at(in))
 			n++
+			// a function that did not exist in the pinned tree (and could not
+			// be inlined: a goroutine body, a function value) stands for the
+			// tabled functions that call or start it
+			for _, o := range c.ownersOf(outermost(fn), 0) {
+				holders[o] = append(holders[o], c.at(in))
+			}
 		}
 	}
 	c.R.CallSites += n
@@ -56,4 +63,78 @@ func (c *Ctx) whoMay(sinkName string, sink Sel, allowed []string, minSites int) 
 	}
 	c.pass(construct, "", fmt.Sprintf("%d site(s) of %s, all inside {%s}", n, sinkName, join(allowed)), sites...)
 	return true
+}
+
+// baselineKey is the name of fn in internal/inl/baseline_funcs.txt.
+func baselineKey(fn *ssa.Function) string {
+	obj, ok := fn.Object().(*types.Func)
+	if !ok || obj.Pkg() == nil {
+		return ""
+	}
+	sig := obj.Type().(*types.Signature)
+	if sig.Recv() == nil {
+		return obj.Pkg().Path() + "." + obj.Name()
+	}
+	t := sig.Recv().Type()
+	ptr := false
+	if p, ok := t.(*types.Pointer); ok {
+		ptr = true
+		t = p.Elem()
+	}
+	name := "?"
+	if n, ok := t.(*types.Named); ok {
+		name = n.Obj().Name()
+		if n.TypeParams().Len() > 0 {
+			name += "[]"
+		}
+	}
+	if ptr {
+		return obj.Pkg().Path() + ".(*" + name + ")." + obj.Name()
+	}
+	return obj.Pkg().Path() + ".(" + name + ")." + obj.Name()
+}
+
+// isNewFunc: the (outermost, declared) function is not part of the pinned tree.
+func isNewFunc(fn *ssa.Function) bool {
+	k := baselineKey(fn)
+	return k != "" && !inl.InBaseline(k)
+}
+
+// ownersOf names the baseline functions responsible for fn: fn itself when it
+// is part of the pinned tree, otherwise the (baseline) functions that call it
+// or start it as a goroutine, transitively through other new functions.
+func (c *Ctx) ownersOf(fn *ssa.Function, depth int) []string {
+	if !isNewFunc(fn) || depth > 4 {
+		return []string{c.nm(fn)}
+	}
+	g := c.graph()
+	seen := map[string]bool{}
+	var out []string
+	add := func(f *ssa.Function) {
+		for _, o := range c.ownersOf(outermost(f), depth+1) {
+			if !seen[o] {
+				seen[o] = true
+				out = append(out, o)
+			}
+		}
+	}
+	for caller, callees := range g.out {
+		for _, t := range callees {
+			if t == fn {
+				add(caller)
+			}
+		}
+	}
+	for _, gs := range g.goSites {
+		for _, t := range gs.targets {
+			if t == fn {
+				add(gs.fn)
+			}
+		}
+	}
+	if len(out) == 0 {
+		return []string{c.nm(fn)}
+	}
+	sort.Strings(out)
+	return out
 }
